@@ -276,3 +276,19 @@ def always_converted(F, fn, k, depth=0, seen=None):
     return bad
 
 
+
+
+def difficulty_getters(F, roots):
+    """names of the Difficulty::get_* accessors reachable from the given functions (resolved call graph)"""
+    import callgraph
+    cg = callgraph.of(F)
+    out = {}
+    for p in cg.reachable_from(set(roots)):
+        f = F.fn(p)
+        if f is None:
+            continue
+        for bi, t in f.calls():
+            c = callee_path(t)
+            if c.startswith('any::difficulty::Difficulty::get_'):
+                out.setdefault(c.split('::')[-1], []).append(p)
+    return out
